@@ -1168,6 +1168,11 @@ class Network:
 
         # Complete expected response futures
         for expected_response in self._expected_response_futures:
+            # Completed / cancelled futures are only removed from the list by
+            # their done callback in a later iteration of the loop
+            if expected_response.done():
+                continue
+
             if expected_response.matches(connection, message):
                 expected_response.set_result((connection, message, ))
 
